@@ -42,6 +42,15 @@
   __CPROVER_ensures((!op2_exc && KR_SOFF_IN(F, s, size)) ==> ((const char *)buffer)[F##_SOFF(s) - F##_POS_OLD(s)] == F##_BUF(s)[F##_SOFF(s)]) \
   __CPROVER_ensures(F##_INV(s) && F##_FRAME(s))
 
+/* Read of ONE typed object (framing projection of KR_READ, content-free): the typed assigns target lets the verifier havoc a large
+   record as one value instead of byte by byte.  A logical consequence of KR_READ with size == sizeof(*buffer). */
+#define KR_READ_TYPED(m, F, s, buffer, size) \
+  __CPROVER_requires(F##_PRE_##m(s) && (size) == sizeof(*(buffer)) && __CPROVER_rw_ok(buffer, sizeof(*(buffer)))) \
+  __CPROVER_assigns(op2_exc, F##_POSLV(s); KR_FITS(F, s, size): *(buffer)) \
+  __CPROVER_ensures(op2_exc == (KR_FITS_OLD(F, s, size) ? 0 : 1)) \
+  __CPROVER_ensures(F##_POS(s) == F##_POS_OLD(s) + (op2_exc ? 0 : size)) \
+  __CPROVER_ensures(F##_INV(s) && F##_FRAME(s))
+
 /* ReadPartial(buf, n): never throws, delivers m = min(n, len - pos) */
 #define KR_READPARTIAL(m, F, s, buffer, size) \
   __CPROVER_requires(F##_PRE_##m(s)) \
@@ -108,6 +117,7 @@ void     Rd_Read(Rd* r, void* buffer, size_t size)            KR_READ(U, RDF, r,
 /* Rd_ReadRec8/16/24: the SAME operation and the SAME contract, with the byte clause instantiated at the indices 0..7 / 0..15 / 0..23 instead of the one
    arbitrary ghost index gk.  Because gk is arbitrary, K_R holds at every index; spelling out these instances is a logical consequence
    (universal instantiation), used where a fixed-size record is parsed field by field. */
+void     Rd_ReadU32(Rd* r, void* buffer, size_t size)         KR_READ(U, RDF, r, buffer, size) __CPROVER_ensures(op2_exc || (KR_B(RDF, r, buffer, size, 0) && KR_B(RDF, r, buffer, size, 1) && KR_B(RDF, r, buffer, size, 2) && KR_B(RDF, r, buffer, size, 3)));
 void     Rd_ReadRec8(Rd* r, void* buffer, size_t size)        KR_READ(U, RDF, r, buffer, size) __CPROVER_ensures(op2_exc || KR_B8(RDF, r, buffer, size, 0));
 void     Rd_ReadRec16(Rd* r, void* buffer, size_t size)       KR_READ(U, RDF, r, buffer, size) __CPROVER_ensures(op2_exc || (KR_B8(RDF, r, buffer, size, 0) && KR_B8(RDF, r, buffer, size, 8)));
 void     Rd_ReadRec24(Rd* r, void* buffer, size_t size)       KR_READ(U, RDF, r, buffer, size) __CPROVER_ensures(op2_exc || (KR_B8(RDF, r, buffer, size, 0) && KR_B8(RDF, r, buffer, size, 8) && KR_B8(RDF, r, buffer, size, 16)));
